@@ -338,6 +338,12 @@ func checkC10(cx *Ctx, r *Report) {
 				if !(rec && keyOK && certOK) {
 					bad = fmt.Sprintf("success is returned without having established record != nil (%v), Key != nil (%v), Certificate != nil (%v)", rec, keyOK, certOK)
 				}
+				// and what it hands out is the key material, not nil
+				for ri := 0; ri < res.Len()-1; ri++ {
+					if isNilConst(fx.retVal(p, ri)) {
+						bad = fmt.Sprintf("a nil error is returned together with a nil result #%d at %s: the caller signs with nothing", ri, w.InstrPos(p.Ret))
+					}
+				}
 			}
 			r.Check(bad == "" && n > 0, "R-GUARD", gkey+":key-shape", w.FnPos(fn), "success only for a non-nil record with key and certificate", bad)
 		}
